@@ -425,8 +425,8 @@ def summarise(prop, tier, seed, results, wall, only=None):
         print(f"KNOWN-FINDING: property={prop} {k['what']} [obligation {r['po']}/{f['clause']}]")
     for path, repro, po, clause in violations:
         print(f"VIOLATION property={prop} replay={path}" + ("" if repro else " no-failing-input-found"))
-    for nf in native_fail[:6]:
-        print(f"NATIVE-SAMPLE-FAIL {prop}: {nf}", file=sys.stderr)
+    for nf in native_fail[:2]:
+        print(f"NATIVE-SAMPLE-FAIL {prop}: {str(nf)[:400]}", file=sys.stderr)
     for u in undecided:
         print(f"UNDECIDED {prop}: {u}", file=sys.stderr)
     for c in crashes:
